@@ -37,7 +37,9 @@ CLAIMED = {
               "breaks this (counter-example).  PARTIAL: the hypothesis is a fact about the Python object graph and is "
               "established by observation: alias analysis of every mutable object reachable from each assembly of real "
               "reactors plus write detection over two planes, and bitwise metamorphic runs (alone vs in company vs permuted "
-              "order, temperature-dependent coolant, unrodded regions, pin models)."),
+              "order, temperature-dependent coolant, unrodded regions, pin models); the set-up decisions (every scalar attribute of "
+              "the assembly and its regions: switches such as the low-flow approximation, step requirements, constants) of "
+              "EVERY assembly are compared between its stand-alone reactor and the full core."),
         note=COMMON_NOTE + ("hand abstract model; Python aliasing, object identity and rebinding during the sweep are "
                             "observed, not modelled (named runtime behaviour the model cannot exhibit); scratch "
                             "conductivity objects of a shared pin model are whitelisted as update-before-use and their "
@@ -72,7 +74,8 @@ CLAIMED = {
               "calculate_geometry with a SYMBOLIC ring count prove, for all n and all dimensions, that flow areas + "
               "pins + wires tile the inner hexagon (SE2 flag on/off) and that duct and bypass cells tile their annuli."),
         note=COMMON_NOTE + ("T2 table dump (encoder round-trip tested; decoder in Lean) and T1 trace with symbolic n.  "
-                            "Partial: centroid coordinates (agreement with adjacency, six-fold symmetry) are checked "
+                            "Partial: centroid coordinates (agreement with adjacency, six-fold symmetry, wall and bypass "
+                            "cells on the mid-surface of their own annulus for 1-3 ducts) are checked "
                             "numerically on real bundles for every n, not modelled in Lean; ring counts > 20 are not "
                             "covered (the property does not ask for them)."),
         technique="Lean 4 kernel-decided table certificates (decide +kernel) + proofs over traced geometry + numeric oracle",
@@ -85,7 +88,9 @@ CLAIMED = {
               "the per-side counts add up, gap adjacency is symmetric with two or three neighbours per cell, and both "
               "neighbours of a shared side list the same cells in opposite order with the finer of the two meshes.  "
               "Perimeter coverage, independence of the total gap area from the assemblies' meshes and the area-proportional "
-              "flow split are checked numerically on the real arrays."),
+              "flow split are checked numerically on the real arrays; every shared edge cell has the same width for both "
+              "assemblies and the width / count of the finer mesh as decided from the input (more edge cells; equal counts: "
+              "the smaller pin pitch)."),
         note=COMMON_NOTE + ("T2 table dump per layout (encoder round-trip tested), certificates split over 16 generated "
                             "modules so that the kernel evaluations run in parallel.  Areas, wetted lengths and centroid "
                             "distances are not modelled in Lean."),
@@ -98,7 +103,9 @@ CLAIMED = {
               "gap cell is covered exactly once by the region cells; the perimeter-weighted integral is preserved "
               "(conservation) for arbitrary fields; coinciding cells give the diagonal.  The executable model (including "
               "the fold of the split top corner and zero padding) agrees with the real _map_asm2gap to 1e-11 on generated "
-              "mesh pairs every run, and the property's clauses are evaluated on the real matrices."),
+              "mesh pairs every run, and the property's clauses are evaluated on the real matrices; on real cores the perimeter "
+              "weights the core applies to gap-mesh fluxes must be the cell lengths of the gap mesh the maps were built on "
+              "(also when the two hex sides meeting in the top corner see different neighbours)."),
         note=COMMON_NOTE + ("T3 hand model + differential correspondence (doubles exchanged as bit patterns).  Partial: "
                             "the algebra of the corner fold (merging the first and last half cell) is validated by the "
                             "oracle on the real matrices, not yet by a theorem."),
@@ -109,7 +116,8 @@ CLAIMED = {
               "temperatures and heating) that the duct-wall closed forms satisfy Fourier's law at both faces, the "
               "flux balance, the mid-wall parabola value, zero outer flux when adiabatic, and the ordering without "
               "heating - proved about definitions regenerated on every run by executing the real _calc_duct_temp "
-              "methods (rodded and low-fidelity) on symbolic inputs."),
+              "methods (rodded, low-fidelity single-node and six-node: each wall cell against its OWN coolant node) on symbolic "
+              "inputs."),
         note=COMMON_NOTE + ("T1 tracing translator (every duct cell of several real regions must reduce to the single "
                             "closed form the theorems are about; emitter validated by Lean-over-Q evaluation); the "
                             "constants L/2=t/2, L^2/8=t^2/8 are checked numerically; float round-off is measured by "
@@ -161,7 +169,10 @@ CLAIMED = {
               "whole cell is in the bundle and provably deposits a different power otherwise (rational witness); after "
               "normalisation and scaling the assembly totals sum to requested power x scaling; the renormalisation factor "
               "is invariant under scaling the profiles, and for every traced interior-update class the heating term is "
-              "homogeneous in the sources (so temperature rises scale with the power).  Real reactors are swept and the "
+              "homogeneous in the sources (so temperature rises scale with the power).  Row table (Model/PowerRows.lean, Props/C03Rows.lean): "
+              "the table the reader builds from the labelled rows of a power file does not depend on the order of the rows and is "
+              "the profile the labels describe (file-order reading provably is not); tied to power._from_file bit for bit on "
+              "files in canonical, item-major, reversed and shuffled order.  Real reactors (also with re-ordered files) are swept and the "
               "deposited power is compared with an independent exact rational integration of the CSV polynomials."),
         note=COMMON_NOTE + ("T3 hand model + per-cell correspondence with AssemblyPower._renorm, plus reuse of the traced "
                             "update classes of C04 for linearity.  Assumes no clipping of negative samples and a non-zero "
@@ -195,7 +206,8 @@ CLAIMED = {
               "types for every exponent m < 2.  All 120 accepted correlation combinations are evaluated on real bundles "
               "at seven Reynolds numbers (10 .. 1e6): evaluability, positivity/finiteness, mass conservation, and the equalised "
               "pressure-gradient relation of the transition split (the friction law of the SAME correlation family must be "
-              "used).  The Lean iteration model (Model/FlowSplit.lean, iterStep) is run by the native driver on the inputs of "
+              "used); bare-rod separation (edge/corner Cheng-Todreas constants depend on W/D only, the interior one on P/D only, on "
+              "both sides of the break at 1.1) and geometries with P/D and W/D on opposite sides of it.  The Lean iteration model (Model/FlowSplit.lean, iterStep) is run by the native driver on the inputs of "
               "real _iterate calls and must reproduce the fixed point the code returns."),
         note=COMMON_NOTE + ("T1 trace of _calc_constant_flowsplits; the iteration update is a hand model of the last lines "
                             "of _iterate validated by the oracle.  NOV/MIT/SE2 splits and the friction/mixing correlations "
@@ -311,7 +323,8 @@ CLAIMED = {
               "(assembly id, row) pairs by id keeps every pair intact, yields ascending ids and every id finds its OWN row - "
               "tied to hotspot.analyze by correspondence (native driver) and to independently recorded peaks.  The real "
               "function is exercised on random tables of other shapes, on all built-in tables through the "
-              "reading/splitting/expression pipeline."),
+              "reading/splitting/expression pipeline, and on generated tables with dT expressions (the same text in several columns, "
+              "the split cladding column) against the same tables with hand-evaluated numbers."),
         note=COMMON_NOTE + ("T1 trace at one small shape; larger shapes and the CSV pipeline are covered by the oracle.  "
                             "The clause that the rises are those of the pin and height of the nominal peak rests on C15."),
         technique="Lean 4 proof (linarith/nlinarith over traced formula, abstract sqrt) + oracle on the real function",
@@ -327,7 +340,9 @@ CLAIMED = {
               "real _group and distribute.  clampGroup (Model/Orifice.lean): a clamped group gets the MINIMUM limit of its "
               "members so every member respects its own limit (theorem), while clamping to the first member's limit provably "
               "does not (counter-example); tied to Orificing.distribute by a fixed-point correspondence on faithful "
-              "parametric tables with mixed assembly types."),
+              "parametric tables with mixed assembly types.  Iteration history: with the mixed-mean outlet temperature of the previous "
+              "sweep over ALL its time steps the rescaled total carries the same heat to the target (c20_history_total; the "
+              "last-step mean does not, counter-model); real _summarize_group_data + distribute are run on two-iteration histories."),
         note=COMMON_NOTE + ("T3 hand model + differential correspondence on Orificing instances made with __new__.  "
                             "Partial: the pressure-drop clause for the last group does not hold in the model (and is "
                             "reported as an assumption, not as a violation, because distribute() itself stops with an "
